@@ -17,6 +17,7 @@ import (
 	"bytes"
 	"encoding/hex"
 	"fmt"
+	"os"
 	"regexp"
 	"sort"
 	"strings"
@@ -191,6 +192,9 @@ func c27Gen(rt *rapid.T) c27Input {
 					op.Ops = append(op.Ops, c27BOp{K: c27Hex(c27GenKey(rt, &pool)), V: c27Hex(c27GenVal(rt))})
 				}
 			}
+		case w < 76 && len(pool) >= 2:
+			// close and reopen the store (on-disk providers flush; model unchanged)
+			op = c27Op{Kind: "reopen"}
 		default:
 			p, s := c27GenIter(rt, pool)
 			op = c27Op{Kind: "iter", Prefix: c27Hex(p), Start: c27Hex(s)}
@@ -413,6 +417,8 @@ type c27Run struct {
 	db    database.Database
 	model c27Model
 	held  []c27Held
+	// reopen closes and reopens the same store (nil when the provider has no persistent form here)
+	reopen func() (database.Database, error)
 }
 
 func (r *c27Run) failf(i int, format string, a ...any) {
@@ -441,8 +447,24 @@ func (r *c27Run) iterate(i int, prefix, start []byte) []c27KV {
 			r.failf(i, "iterator does not terminate")
 		}
 		k := append([]byte(nil), it.Key()...)
-		v := append([]byte(nil), it.Value()...)
+		rv := it.Value()
+		v := append([]byte(nil), rv...)
 		out = append(out, c27KV{k, v})
+		if i%2 == 1 && len(v) > 0 {
+			// the interface keeps Value() valid until the next Next(): a write to the same key in
+			// between (same length, other content; undone at once) must not change the held slice
+			other := c27Scribbled(v)
+			if err := r.db.Put(append([]byte(nil), k...), other); err != nil {
+				r.failf(i, "Put during iteration: %v", err)
+			}
+			changed := !bytes.Equal(rv, v)
+			if err := r.db.Put(append([]byte(nil), k...), append([]byte(nil), v...)); err != nil {
+				r.failf(i, "Put during iteration: %v", err)
+			}
+			if changed {
+				r.failf(i, "slice returned by iterator Value() for key %x changed when the key was overwritten before the next Next(): was %x", k, v)
+			}
+		}
 	}
 	if err := it.Error(); err != nil {
 		r.failf(i, "iterator error: %v", err)
@@ -523,14 +545,32 @@ func c27Check(c *kit.Case, in c27Input) {
 	// classes / non-triviality are a function of the input and the IDEAL model
 	c27Classify(c, in)
 
+	hasReopen := false
+	for _, op := range in.Ops {
+		hasReopen = hasReopen || op.Kind == "reopen"
+	}
 	for _, p := range c27Providers() {
-		db, err := p.open()
+		var db database.Database
+		var err error
+		var reopen func() (database.Database, error)
+		if p.name == "pebble" && hasReopen {
+			// a history that reopens the store runs pebble on disk (in the shard's scratch cwd)
+			dir, derr := os.MkdirTemp(".", "c27pebble")
+			if derr != nil {
+				c.Failf("[pebble] cannot create scratch dir: %v", derr)
+			}
+			defer os.RemoveAll(dir)
+			db, err = pebbledb.NewDatabase(dir, false)
+			reopen = func() (database.Database, error) { return pebbledb.NewDatabase(dir, false) }
+		} else {
+			db, err = p.open()
+		}
 		if err != nil {
 			c.Failf("[%s] cannot open provider: %v", p.name, err)
 		}
-		r := &c27Run{c: c, prov: p.name, db: db, model: c27Model{}}
+		r := &c27Run{c: c, prov: p.name, db: db, model: c27Model{}, reopen: reopen}
 		func() {
-			defer db.Close()
+			defer func() { r.db.Close() }()
 			for i, op := range in.Ops {
 				r.step(i, op, universe)
 			}
@@ -599,6 +639,21 @@ func (r *c27Run) step(i int, op c27Op, universe []string) {
 		r.batch(i, op, universe)
 	case "iter":
 		r.iter(i, op)
+	case "reopen":
+		if r.reopen != nil {
+			if err := r.db.Close(); err != nil {
+				r.failf(i, "Close before reopen: %v", err)
+			}
+			db, err := r.reopen()
+			if err != nil {
+				r.failf(i, "reopen: %v", err)
+			}
+			r.db = db
+			r.c.Class("pebble_reopened")
+			if obs := r.observe(i); !obs.equal(r.model) {
+				r.failf(i, "content after close+reopen %s differs from the ordered-map model %s", obs, r.model)
+			}
+		}
 	}
 }
 
